@@ -81,22 +81,16 @@ func c14Parse(c *engine.Ctx, in []byte, args map[string]string) {
 	{
 		pre := reFloat.Find(in)
 		v, n := strconv.ParseFloat(b)
-		expDigits := 0
-		if i := bytes.IndexAny(pre, "eE"); i >= 0 {
-			expDigits = len(bytes.TrimLeft(pre[i+1:], "+-"))
-		}
-		if expDigits <= 18 {
-			if n != len(pre) {
-				c.Fail("ParseFloat-length", fmt.Sprintf("ParseFloat(%q) consumed %d bytes, the documented syntax matches %d (%q)", in, n, len(pre), pre))
-			} else if pre != nil {
-				want, _ := stdconv.ParseFloat(string(pre), 64)
-				if !relClose(v, want, 1e-14) {
-					c.Fail("ParseFloat-value", fmt.Sprintf("ParseFloat(%q)=%v, strconv.ParseFloat(%q)=%v", in, v, pre, want))
-				}
-				c.Count("floats", 1)
-			} else if v != 0 {
-				c.Fail("ParseFloat-value", fmt.Sprintf("ParseFloat(%q)=(%v,0)", in, v))
+		if n != len(pre) {
+			c.Fail("ParseFloat-length", fmt.Sprintf("ParseFloat(%q) consumed %d bytes, the documented syntax matches %d (%q)", in, n, len(pre), pre))
+		} else if pre != nil {
+			want, _ := stdconv.ParseFloat(string(pre), 64)
+			if !relClose(v, want, 1e-14) {
+				c.Fail("ParseFloat-value", fmt.Sprintf("ParseFloat(%q)=%v, strconv.ParseFloat(%q)=%v", in, v, pre, want))
 			}
+			c.Count("floats", 1)
+		} else if v != 0 {
+			c.Fail("ParseFloat-value", fmt.Sprintf("ParseFloat(%q)=(%v,0)", in, v))
 		}
 	}
 	// ParseDecimal: only for inputs that begin with a decimal number
@@ -417,7 +411,7 @@ func c14Work(c *engine.Ctx) {
 		"123456789012345678", "1234567890123456789012", "0.000000000000000000001", "1e22", "1e23", "1e-22", "1e-23", "123456789012345e22", "1234567890123456e22", "1e37", "1e38", "1.5e-37",
 		"179769313486231570000000000000000000000000000000000000000000000000000000000000000000000000000000000000000000000000000000000000000000000000000000000000000000000000000000000000000000000000000000000000000000000000000000000000000000000000000000000000000000000000000000000000000000000000000000000000000000000",
 		"0.00000000000000000000000000000000000000000000000000000000000000000000000000000000000000000000000000000000000000000000000000000000000000000000000000000000000000000000000000000000000000000000000000000000000000000000000000000000000000000000000000000000000000000000000000000000000000000000000000000000000000000000000049",
-		"1e999999999999999999", "1e-999999999999999999", "-.5", "+.5e+1", "00012.50"}
+		"1e999999999999999999", "1e-999999999999999999", "1e9223372036854775807", "1.5e9223372036854775807", "1e-9223372036854775808", "0.001e-9223372036854775808", "10000000000000000000000e-9223372036854775808", "1e99999999999999999999", "-1e+99999999999999999999", "1e-99999999999999999999", "0e99999999999999999999", "1e0000000000000000000001", "-.5", "+.5e+1", "00012.50"}
 	for i := 1; i <= 18; i++ {
 		boundary = append(boundary, "123456789012345678"[:i]+"."+"123456789012345678"[i:])
 	}
@@ -506,8 +500,8 @@ func c14Finish(c *engine.Ctx, cov map[string]interface{}) string {
 func init() {
 	register(&engine.Check{
 		ID: "C14", Level: "exploration",
-		Rule:        "parsers: all strings ≤7 over {+ - 0 1 5 9 . e E x} and single-edit neighbours of 70 boundary numerals vs strconv.ParseInt/ParseUint/ParseFloat on the longest syntactic prefix; AppendInt/LenInt on {±(10^k+d), ±(2^k+d), 0, min, max}; AppendNumber→ParseNumber on that family × dec 0..18 × groupSize 0..6 × ordered pairs of distinct symbols of 1–4 UTF-8 bytes; AppendFloat on m·10^e (m≤99 quick / 999 thorough, e∈[-330,310], both signs) × prec −1..18: well-formed, right sign, within one unit of the requested last digit (big.Float); AppendDecimal on e∈[-20,40] ∪ {100, 308} × dec 0..18 vs big.Rat round-half-away with trailing zeros dropped; every formatter with a prefix in the destination at cap==len and with room",
-		Assumptions: []string{"AppendDecimal is accepted if it equals round-half-away of either the shortest decimal form of the float or its exact binary value", "ParseFloat exponents longer than 18 digits are not compared"},
+		Rule:        "parsers: all strings ≤7 over {+ - 0 1 5 9 . e E x} and single-edit neighbours of 80 boundary numerals (among them exponents at and beyond the int64 range) vs strconv.ParseInt/ParseUint/ParseFloat on the longest syntactic prefix; AppendInt/LenInt on {±(10^k+d), ±(2^k+d), 0, min, max}; AppendNumber→ParseNumber on that family × dec 0..18 × groupSize 0..6 × ordered pairs of distinct symbols of 1–4 UTF-8 bytes; AppendFloat on m·10^e (m≤99 quick / 999 thorough, e∈[-330,310], both signs) × prec −1..18: well-formed, right sign, within one unit of the requested last digit (big.Float); AppendDecimal on e∈[-20,40] ∪ {100, 308} × dec 0..18 vs big.Rat round-half-away with trailing zeros dropped; every formatter with a prefix in the destination at cap==len and with room",
+		Assumptions: []string{"AppendDecimal is accepted if it equals round-half-away of either the shortest decimal form of the float or its exact binary value"},
 		Setup:       c14Setup, Work: c14Work, Finish: c14Finish,
 	})
 }
